@@ -13,6 +13,17 @@ def gen_rename(rng, tier):
         ws = c05.gen_twin_workspace(rng) if k < 0.08 else (c05.gen_returned_local_workspace(rng) if k < 0.12 else c05.gen_workspace(rng))
         steps = c05.cursor_steps(["rename"], ws, rng, newname=rng.choice(FRESH))
         out.append(c05.make_case([(fn, text) for fn, text, _ in ws], steps))
+    # workspaces with more files than the reference search has pool workers (runtime.NumCPU()+2; find-references and
+    # rename share that pool: seeded C06-3, C11-5): a GLOBAL defined in one file and used once in every other file, each
+    # use on a line of its own number; renamed from the defining file and from two of the using files - the edits must be
+    # exactly the occurrences (a worker that carries anything over from an earlier file adds edits at another file's position)
+    for _ in range(2 if tier != "thorough" else 20):
+        ws = c05.gen_many_files_workspace(rng)
+        steps = []
+        for fi in [0, rng.randrange(1, len(ws) - 1), len(ws) - 1]:
+            one = c05.cursor_steps(["rename"], [ws[fi]], rng, newname=rng.choice(FRESH))
+            steps += [":".join([x.split(":")[0], str(fi)] + x.split(":")[2:]) for x in one]
+        out.append(c05.make_case([(fn, text) for fn, text, _ in ws], steps))
     return out
 
 
@@ -22,6 +33,9 @@ def gen_rename_wide(rng, tier):
         ws = c05.pick_wide_workspace(rng)
         steps = c05.cursor_steps(["rename"], ws, rng, newname=rng.choice(FRESH))
         out.append(c05.make_case([(fn, text) for fn, text, _ in ws], steps))
+    for ws in c05.chain_workspaces(rng, tier, 8):        # call-chain statements with callbacks (seeded C05-5)
+        out.append(c05.make_case([(fn, text) for fn, text, _ in ws],
+                                 c05.cursor_steps(["rename"], ws, rng, newname=rng.choice(FRESH))))
     return out
 
 
